@@ -120,7 +120,9 @@ where
         let r: Option<[S; N]> = Frame::from_samples(&mut it);
         let left = it.len();
         let want_some = len >= N;
-        if r.is_some() != want_some || left != len - len.min(N) || (want_some && r != Some(f)) {
+        // how much a FAILED construction consumes is not part of the property; a successful one must
+        // take exactly the first N samples and leave the rest in the iterator
+        if r.is_some() != want_some || (want_some && (r != Some(f) || left != len - N)) {
             return bad("frame.from_samples", format!("{tag}: from_samples over {len} samples gave {r:?} and left {left} unconsumed"));
         }
         // the same source through iterators with other size hints: (0, None), (0, Some(len)), (len, None)
@@ -138,7 +140,7 @@ where
                 1 => Frame::from_samples(&mut std::iter::from_fn(&mut raw).take(len + 5).filter(|_| true)),
                 _ => Frame::from_samples(&mut src.iter().copied().chain(std::iter::from_fn(|| None))),
             };
-            let consumed_ok = kind == 2 || pos == len.min(N);
+            let consumed_ok = kind == 2 || !want_some || pos == N;
             if r.is_some() != want_some || !consumed_ok || (want_some && r != Some(f)) {
                 return bad(
                     "frame.from_samples",
@@ -246,7 +248,7 @@ fn main() {
         };
         ctx.finish_replay(r.map(|(k, m)| format!("{k}: {m}")));
     }
-    ctx.rule("frames: every (sample format of 14, N in 1..=32) x 9 contents (position-coded + 8 rotations of the boundary-value vector MIN/MAX/EQ/...): map, zip_map (closure call order recorded), offset_amp, scale_amp(4 gains), add_amp and mul_amp with per-channel different arguments, to_signed_frame, to_float_frame, EQUILIBRIUM, CHANNELS, from_fn (index order), from_samples over iterators of every length 0..=N+1 (Some iff len>=N, consumes exactly min(len,N)), channels() (exact size), channels_ref/channels_mut forwards and backwards, channel(i)/channel_mut(i) for i in 0..=N+1, channel_unchecked; oracle = the array built by applying the sample operation to channel 0..N-1 in order; distinct by (format, N, content)");
+    ctx.rule("frames: every (sample format of 14, N in 1..=32) x 9 contents (position-coded + 8 rotations of the boundary-value vector MIN/MAX/EQ/...): map, zip_map (closure call order recorded), offset_amp, scale_amp(4 gains), add_amp and mul_amp with per-channel different arguments, to_signed_frame, to_float_frame, EQUILIBRIUM, CHANNELS, from_fn (index order), from_samples over iterators of every length 0..=N+1 and four kinds of size hint, plus frame.channels() (Some iff len>=N; on success exactly the first N samples are taken), channels() (exact size), channels_ref/channels_mut forwards and backwards, channel(i)/channel_mut(i) for i in 0..=N+1, channel_unchecked; oracle = the array built by applying the sample operation to channel 0..N-1 in order; distinct by (format, N, content)");
     let mut evals = 0u64;
     for (fmt, n, f) in &table {
         for variant in 0..9usize {
